@@ -269,7 +269,6 @@ pub fn run(tier: &str, only_code: Option<&str>) -> (Vec<(String, String, String,
     let next = AtomicUsize::new(0);
     let agg: Mutex<(Stats, Vec<Found>)> = Mutex::new((Stats::default(), vec![]));
     let nthreads = std::thread::available_parallelism().map(|n| n.get()).unwrap_or(8);
-    crate::hashseed::reset(1);
     std::thread::scope(|sc| {
         for _ in 0..nthreads {
             sc.spawn(|| {
